@@ -351,6 +351,11 @@ def Cache.forkCommitteeSize (c : Cache) : Nat :=
     | some pl => !pl.discriminated
     | none => !decide (a ∈ c.discr))
 
+/-- the online addresses that are neither validated nor a pool: the registry-level reading of "only validated
+identities or pools are online" says this list is empty -/
+def Cache.onlineNotValidatedNotPool (c : Cache) : List Nat :=
+  c.online.filter (fun a => !decide (a ∈ c.validated) && !(lookup c.pools a).isSome)
+
 /-- `StepValidators` (validators.go:448) as duplicate-free lists in first-occurrence order -/
 structure StepValidators where
   original : List Nat
